@@ -1272,6 +1272,24 @@ def config(F, R):
                             if not okp and not done_:
                                 done_ = True
                                 R.find('C12.config', f, 'prio-sources', 'in the %s variant an event taken from %s drains %s afterwards; required: message queue %s, deferred queue %s (the queue an event came from is not drained from inside its own dispatch, the other one is)' % ('message-queue-first' if first_msgq else 'default', ' and '.join(x for x, y in (('the message queue', msgq), ('the deferred queue', defq)) if y) or 'neither queue', did or 'nothing', exp_m, exp_d))
+            # C05.prio-arming: when the message queue is drained BEFORE the deferred queue is looked at, the events just taken from the
+            # message queue may have changed the configuration (they do not re-offer deferred events themselves: they come from the
+            # message queue).  The re-offer that follows must therefore be armed by their outcome as well; if its arming flag depends on
+            # nothing but the result of the event that was processed before the drain, deferred events stay pending in a configuration
+            # that no longer defers them until some later event is handled
+            if first_msgq and ok:
+                from rules_order import dependency_closure
+                for i, n in f.calls():
+                    if n.get('n') != 'do_handle_deferred' or not n.get('args'): continue
+                    deps = dependency_closure(f, n['args'][0])
+                    names = {f.nodes[d]['n'] for d in deps if f.nodes[d] and f.nodes[d]['k'] == 'ref' and f.nodes[d].get('dk') in ('param', 'local')}
+                    mems = {f.nodes[d]['n'] for d in deps if f.nodes[d] and f.nodes[d]['k'] == 'mem'}
+                    calls_ = {f.nodes[d].get('n') for d in deps if f.nodes[d] and f.nodes[d]['k'] == 'call' and not f.nodes[d].get('op')}
+                    only_param = names <= {p_['n'] for p_ in f.d['params']} and not mems and not calls_
+                    R.anchor('prio-arming:' + be)
+                    R.ob('C05.prio-arming', not only_param, {'func': f.q, 'armed_by': f.expr(n['args'][0])})
+                    if only_param:
+                        R.find('C05.prio-arming', f, 'direct-result-only:' + be, 'with event_queue_before_deferred_queue the message queue is drained first and the deferred events are re-offered afterwards, armed by %s - the outcome of the event processed before the drain alone: a state change made by one of the queued events does not re-offer the deferred events, they stay pending although the new configuration does not defer them' % f.expr(n['args'][0]), where=f.at(i))
             R.ob('C12.config', ok, {'func': f.q, 'order': order})
             if not ok: R.find('C12.config', f, 'prio-order', 'the %s variant of do_handle_prio_msg_queue_deferred_queue runs %s, required %s' % ('event_queue_before_deferred_queue' if first_msgq else 'default', order, want_order))
         if be in ('back', 'back11'):
@@ -1849,3 +1867,60 @@ def fctinstall(F, R):
         R.ob('C01.plan', ok2, {'machine': Facts.short(sm or '', 60), 'walked': len(w), 'compared': how})
         if not ok2:
             R.find('C01.plan', g, 'install-order', 'the constructor of the favor_compile_time tables of %s walks %d cells with triggers %s, the back-end table has %d rows with triggers %s (%s): a row is skipped, installed twice or in another priority order' % (Facts.short(sm or '', 50), len(w), [Facts.short(x or '?', 24) for x in w][:8], len(trig), [Facts.short(x, 24) for x in (trig if d['ordered'] is not None else sorted(trig))][:8], how))
+
+@rule('deferonce')
+def deferonce(F, R):
+    """C05.defer-once (back, back11): state-declared deferral is executed per region - the cell of (active state, event) of EVERY
+    region whose active state lists the event calls defer_transition, and each call stores a copy.  For a machine in which states of
+    two different regions defer the same event (front-end oracle; regions = states reachable from each initial state over the rows)
+    the event is therefore stored twice and later dispatched twice, unless the cell function refuses to store a second copy.  The
+    rule reports the cell function when such a machine exists and every path through it stores the event."""
+    from rules_core import backend_of
+    M = Model(F)
+    overlap = {}      # (machine type) -> {event: (state1, state2)}
+    for f in F.funcs:
+        be = backend_of(f)
+        if be not in ('back', 'back11') or not f.blocks or f.cls != 'state_machine' or f.n != 'defer_transition': continue
+        mt = F.class_type(f)
+        m = M.machine_of(mt)
+        ta = f.targs() or []
+        if m is None or not ta: continue
+        rows = M.rows(m.fe); ini = M.initial_states(m.fe)
+        if rows is None or not ini: continue
+        ev = strip_cvref(str(ta[0]))
+        if mt not in overlap:
+            # region membership
+            adj = {}
+            for r in rows:
+                s = strip_cvref(M.source_state(r) or ''); t = r['target']
+                if not s or t is None or t == 'boost::msm::front::none': continue
+                adj.setdefault(s, set()).add(strip_cvref(t))
+            reg = {}
+            for k, i0 in enumerate(ini):
+                todo = [strip_cvref(i0)]
+                while todo:
+                    x = todo.pop()
+                    if x in reg: continue
+                    reg[x] = k; todo.extend(adj.get(x, ()))
+            ov = {}
+            byev = {}
+            for st in M.states(m.fe):
+                for e in M.deferred(st): byev.setdefault(strip_cvref(e), []).append(strip_cvref(st))
+            for e, sts in byev.items():
+                rs = {}
+                for st in sts:
+                    if st in reg: rs.setdefault(reg[st], st)
+                if len(rs) >= 2: ov[e] = tuple(sorted(rs.values()))[:2]
+            overlap[mt] = ov
+        if len(ini) >= 2: R.anchor('defer-cell-multiregion:' + be)
+        pair = overlap[mt].get(ev)
+        if not pair: continue
+        R.seen(f); R.anchor('defer-overlap:' + be)
+        stores = [i for i, n in f.calls() if n.get('n') == 'defer_event']
+        always = bool(stores)
+        for p in f.paths(edge_bound=1):
+            if f.aborts(p): continue
+            if not any(i in stores for i in f.path_nodes(p)): always = False
+        R.ob('C05.defer-once', not always, {'func': f.q, 'machine': Facts.short(m.fe, 60), 'event': Facts.short(ev, 40), 'regions_deferring': [Facts.short(x, 40) for x in pair]})
+        if always:
+            R.find('C05.defer-once', f, 'per-region:' + be, 'the deferral cell stores the event on every path, and it is the cell of every region whose active state defers the event: in %s the states %s and %s of two regions both defer %s, which is then stored twice and later dispatched twice' % (Facts.short(m.fe, 50), Facts.short(pair[0], 40), Facts.short(pair[1], 40), Facts.short(ev, 40)), instance='%s / %s' % (Facts.short(m.fe, 100), Facts.short(ev, 60)))
